@@ -126,6 +126,13 @@ class ExprMixin(object):
             setattr(self, name, value)
 
 
+def _evaluate(x, obj, args):
+    # expression objects receive the extra positional arguments (obj_, list_ need them); plain callables only the context
+    if isinstance(x, ExprMixin):
+        return x(obj, *args)
+    return x(obj) if callable(x) else x
+
+
 def _exprstr(x):
     # constants print as Python literals also under str(), so that the text still denotes the same expression
     return str(x) if isinstance(x, ExprMixin) else repr(x)
@@ -152,7 +159,7 @@ class UniExpr(ExprMixin):
         return "%s %s" % (opnames[self.op], _operandtext(self.operand, _exprstr))
 
     def __call__(self, obj, *args):
-        operand = self.operand(obj) if callable(self.operand) else self.operand
+        operand = _evaluate(self.operand, obj, args)
         return self.op(operand)
 
 
@@ -170,8 +177,8 @@ class BinExpr(ExprMixin):
         return "(%s %s %s)" % (_operandtext(self.lhs, _exprstr), opnames[self.op], _operandtext(self.rhs, _exprstr))
 
     def __call__(self, obj, *args):
-        lhs = self.lhs(obj) if callable(self.lhs) else self.lhs
-        rhs = self.rhs(obj) if callable(self.rhs) else self.rhs
+        lhs = _evaluate(self.lhs, obj, args)
+        rhs = _evaluate(self.rhs, obj, args)
         return self.op(lhs, rhs)
 
 
